@@ -4,6 +4,7 @@ Model: DTML/VarPipe.lean.
 -/
 import DTML.VarPipe
 import DTML.GenVar
+import DTML.Lemmas.VarInit
 set_option linter.unusedVariables false
 namespace DTML.Props.C15
 open DTML.Quote DTML.VarPipe
@@ -308,6 +309,41 @@ theorem gen_truncate_is_model (size : Int) (etc : Option Text) (s : Text) :
     | none => by_cases h2 : 2 * rfindSpace (sliceTo s size) > size <;> simp [h2]
     | some e => by_cases h2 : 2 * rfindSpace (sliceTo s size) > size <;> simp [h2]
   · simp [h]
+
+/-! #### which form the tag compiles to (regenerated from `Var.__init__` on every run: harness/trans_varinit.py) -/
+
+/-- **The form the model chooses is the form the source chooses**: the if-chain at the end of `Var.__init__`
+(`len(args) == 1 and fmt == 's'` -> `('v', x)`; `len(args) == 2 and fmt == 's' and 'html_quote' in args` ->
+`('v', x, 'h')`; otherwise `Var.render`), translated test by test, evaluated on the attribute dictionary of the tag a
+spec describes (`Lemmas.VarInit.paramsOf`: the unnamed value, one key per distinct option name written, one per
+attribute with a value) is `simpleKind` - the function `render` branches on between `renderSimple` and `renderFull`. -/
+theorem gen_var_form_is_model (sp : Spec) :
+    GenVarInit.formGen (Lemmas.VarInit.paramsOf sp) sp.cfmt = simpleKind sp := by
+  have hh := Lemmas.VarInit.has_paramsOf sp "html_quote" (by decide)
+  unfold GenVarInit.formGen simpleKind
+  rw [Lemmas.VarInit.paramsOf_length, hh]
+  have hs : "s".toList = ['s'] := rfl
+  simp only [Bool.and_eq_true, decide_eq_true_eq, hs]
+  generalize (1 + sp.written.eraseDups.length + (if sp.missing.isSome then 1 else 0) +
+      (if sp.null.isSome then 1 else 0) + (if sp.fmt.isSome then 1 else 0) +
+      (if sp.size.isSome then 1 else 0) + (if sp.etc.isSome then 1 else 0)) = n
+  by_cases h1 : sp.cfmt = ['s'] <;> by_cases h2 : n = 1 <;> by_cases h3 : n = 2 <;> simp [h1, h2, h3]
+
+/-- **The modifiers the model applies are `self.modifiers` of the source**: the table `modifiers` filtered by the test of
+the source (`used(m[0]) and args[m[0]]`: the name is a key of the dictionary and its value is true) is `applied`. -/
+theorem gen_var_modifiers_is_model (sp : Spec) :
+    GenVarInit.modifiersGen (Lemmas.VarInit.paramsOf sp) = applied sp := by
+  unfold GenVarInit.modifiersGen applied
+  apply List.filter_congr
+  intro m hm
+  have hv := Lemmas.VarInit.modifiers_not_valued m hm
+  rw [Lemmas.VarInit.has_paramsOf sp m hv]
+  cases hw : sp.written.contains m with
+  | false => rfl
+  | true =>
+    have h0 : m ≠ "" := by
+      intro h; apply hv; rw [h]; decide
+    simp [GenVarInit.argTruthy, Lemmas.VarInit.lookup_paramsOf sp m h0 hw, GenVarInit.pvalTruthy]
 
 /-! #### url_unquote as the inverse of url_quote -/
 
